@@ -370,7 +370,21 @@ pub fn run_part<E: Engine>(ctx: &Ctx, eng: &E, runs: u64, report: &mut Report) {
                     slots[w].2.store(i, Ordering::Relaxed);
                     slots[w].0.store(seed.wrapping_add(1).max(1), Ordering::Relaxed);
                     slots[w].1.store((t0.elapsed().as_millis() as u64).max(1), Ordering::Relaxed);
+                    // engines that run the whole stack leave a note of what is in flight: if the code under test brings
+                    // the process down (a panic while unwinding aborts), the `check` wrapper replays the notes one by
+                    // one in fresh processes and reports the case that does it
+                    let inflight = eng.fresh_thread().then(|| format!("{}/tmp-inflight-{}-{w}.json", ctx.replay_dir, std::process::id()));
+                    if let Some(p) = &inflight {
+                        let _ = std::fs::create_dir_all(&ctx.replay_dir);
+                        let body = json!({ "property": ctx.prop, "engine": eng.name(), "run_seed": seed, "root_seed": ctx.root_seed,
+                            "violation": { "clause": "no-panic", "site": "process-abort", "signature": "no-panic:process-abort", "detail": "the process was brought down while this case was running", "at": 0 },
+                            "case": case });
+                        let _ = std::fs::write(p, serde_json::to_vec(&body).unwrap_or_default());
+                    }
                     let out = exec_guarded(eng, &case, seed);
+                    if let Some(p) = &inflight {
+                        let _ = std::fs::remove_file(p);
+                    }
                     slots[w].0.store(0, Ordering::Relaxed);
                     evals += 1;
                     stats.merge(&out.stats);
@@ -440,6 +454,15 @@ pub fn run_part<E: Engine>(ctx: &Ctx, eng: &E, runs: u64, report: &mut Report) {
                 Some(v) => final_v = Some(v),
                 None => ok = false,
             }
+        }
+        if !ok && h.v.clause == "no-panic" {
+            // A panic in the code under test can poison process-wide state (a global registry's mutex), after which
+            // later executions in this process panic elsewhere: the in-process re-execution is then not faithful. The
+            // panic itself was observed; it is reported with the case as drawn (replay runs in a fresh process).
+            let path = write_replay(ctx, eng, h.seed, &h.case, None, &h.v, 0);
+            let known = ctx.known.lookup(&ctx.prop, &sig).map(|k| k.what_fails.clone());
+            report.found.push(Found { engine: eng.name().to_string(), signature: sig, detail: format!("{} [not re-executed in-process: a panic may poison shared state]", h.v.detail), seed: h.seed, replay: path, known });
+            continue;
         }
         if !ok && eng.timing_clauses().iter().any(|c| *c == h.v.clause) {
             report.stats.bump("probe.timing_hit_unconfirmed");
